@@ -696,7 +696,8 @@ def http_cases(rng, nflips=16):
     yield "http.chunked", "valid", {"msg": ch}
     for kind, m in mut_text(rng, ch, 8):
         yield "http.chunked", kind, {"msg": m}
-    for size in (b"ffffffffffffffff", b"fffffffffffffff0", b"7fffffffffffffff", b"8000000000000000", b"100000000", b"ffffffff",
+    for size in (b"ffffffffffffffff", b"fffffffffffffff0", b"ffffffffffffff00", b"fffffffffffff000", b"ffffffffffff0000",
+                 b"f7666666666666666666666666666632", b"7fffffffffffffff", b"8000000000000000", b"100000000", b"ffffffff",
                  b"%x" % (len(ch) + 1), b"%x" % len(ch), b"%x" % max(len(ch) - 1, 0), b"0", b"", b"zz", b"-1",
                  b"fffffffffffffffffffffffff"):
         yield "http.chunked", "chunk-size", {"msg": size + b"\r\n" + ch}
